@@ -512,8 +512,15 @@ def call(app, path):
     return env, got, (lambda status, headers, exc_info=None: got.append((status, headers)))
 
 
-def make_wsgi(signed):
-    def q(o: int, sw: str, sr: str):
+# how the request that sets the cookie ends: the handler returns; it aborts / raises / returns a response object of its own
+# after setting the cookie on app.response; the cookie is set in a before_request hook and the request ends in a 404 / 405
+ENDINGS = ["return", "abort", "raise-response", "return-response", "redirect", "hook-404", "hook-405"]
+
+
+def make_wsgi(signed, endings=("return",)):
+    def q(o: int, sw: str, sr: str, end: int = 0):
+        assume(0 <= end < len(endings))
+        ending = endings[end]
         v = latin1_char(o)
         if signed:
             assume(len(sw) == 1 and len(sr) == 1)
@@ -527,19 +534,40 @@ def make_wsgi(signed):
         app = ombott.Ombott()
         seen = []
 
+        def set_cookie():
+            app.response.set_cookie("c", value, secret=sw or None, path="/")
+
         @app.route("/set")
         def set_():
-            app.response.set_cookie("c", value, secret=sw or None, path="/")
+            set_cookie()
+            if ending == "abort":
+                ombott.abort(403, "no")
+            if ending == "raise-response":
+                raise ombott.HTTPResponse("later", 202)
+            if ending == "return-response":
+                return ombott.HTTPResponse("later", 201, X_A="b")
+            if ending == "redirect":
+                ombott.redirect("/get")
             return "ok"
+
+        @app.route("/only-put", method="PUT")
+        def only_put():
+            return "put"
+        if ending.startswith("hook"):
+            app.add_hook("before_request", set_cookie)
 
         @app.route("/get")
         def get_():
             seen.append(app.request.get_cookie("c", DEFAULT, secret=sr or None))
             return "ok"
-        env, got, start = call(app, "/set")
+        env, got, start = call(app, {"hook-404": "/nowhere", "hook-405": "/only-put"}.get(ending, "/set"))
         b"".join(app(env, start))
-        if len(got) != 1 or got[0][0][:3] != "200":
-            return "setting the cookie answered %r" % (got,)
+        want_status = {"return": "200", "abort": "403", "raise-response": "202", "return-response": "201", "redirect": "303",
+                       "hook-404": "404", "hook-405": "405"}[ending]
+        if len(got) != 1 or got[0][0][:3] not in (want_status, "302"):
+            return "setting the cookie (%s) answered %r" % (ending, got)
+        if ending != "return":
+            cover("ended-" + ending)
         if signed:
             mac.signing = False
         env, got2, start = call(app, "/get")
@@ -554,7 +582,7 @@ def make_wsgi(signed):
             return None
         cover("read-back")
         if seen[0] != value or type(seen[0]) is not type(value):
-            return "handler set %r, next request reads %r (Cookie: %r)" % (value, seen[0], env["HTTP_COOKIE"])
+            return "handler set %r (request ended by %s), next request reads %r (Cookie: %r)" % (value, ending, seen[0], env["HTTP_COOKIE"])
         return None
     return q
 
@@ -708,6 +736,11 @@ def queries(tier):
     # ---- both directions through the application
     add("wsgi/plain", make_wsgi(False), "Ombott.__call__: handler sets c='w'+v (v any Latin-1 character, symbolic code point), the "
         "next request of the same application reads it in a handler", 120, ["read-back"])
+    ends = ENDINGS[1:]
+    add("wsgi/endings/plain", make_wsgi(False, ends), "as wsgi/plain; the request that sets the cookie on app.response ends by one of "
+        "%r (solver index)" % (ends,), 300, ["read-back"] + ["ended-" + e for e in ends])
+    add("wsgi/endings/signed", make_wsgi(True, ends), "as wsgi/signed; the request that sets the cookie on app.response ends by one "
+        "of %r (solver index)" % (ends,), 200, ["read-back", "other-secret"] + ["ended-" + e for e in ends])
     add("wsgi/signed", make_wsgi(True), "Ombott.__call__: handler sets c=(v, 1) with secret sw, next request reads with secret sr "
         "(one Latin-1 character each, symbolic; OracleHmac/TagPickle)", 60, ["read-back", "other-secret"])
     out.sort(key=lambda x: -x.timeout)          # stable: the long queries start first, the pool packs better
